@@ -152,6 +152,15 @@ def run(ctx):
                 continue  # diverges (assert) or cannot continue the loop
             lit = edge_literal(b, R, sb, cfg.edge_label[e])
             descr = None
+            # a private classification of the cached state (`match CacheLookup::of(&state) { Hit.. => .. }`): the arm is taken exactly under
+            # the states that build that variant
+            if lit:
+                from ..mir import built_under
+                under = built_under(b, R, lit)
+                if under:
+                    st = [l for l in under if l[0] == 'is' and l[1][0] == 'field' and l[1][2] == 'state']
+                    if len(st) == 1:
+                        lit = st[0]
             if lit and any(op_ == 'Eq' and is_call(y_, 'Tree::get_root_idx') and any(s(x) == s(node) for x in walk(x_)) for op_, x_, y_ in prune.cmp_facts([lit])):
                 descr = 'node is the root'
             elif lit and lit[0] == 'is' and set(lit[2]) <= CACHED and lit[1][0] == 'field' and lit[1][2] == 'state' and s(node_of(lit[1])[1]) == s(node):
@@ -180,6 +189,13 @@ def run(ctx):
             continue
         for e in cfg.edge_nodes(sb):
             lit = edge_literal(b, R, sb, cfg.edge_label[e])
+            if lit:
+                from ..mir import built_under
+                under = built_under(b, R, lit)
+                if under:
+                    st = [l for l in under if l[0] == 'is' and l[1][0] == 'field' and l[1][2] == 'state']
+                    if len(st) == 1:
+                        lit = st[0]
             if lit and lit[0] == 'is' and lit[2] == frozenset(['Infeasible']):
                 inf_edges.append((sb, e, lit))
     fresh = [x for x in inf_edges if any(is_call(a, 'AffTree::phase_two') for a in walk(x[2][1]))]
